@@ -639,9 +639,11 @@ void oracle_c12_search(World &w, const History &)
     if (!alias.empty()) cand.push_back(alias);
     else if ((!name.empty() && name.back() == '.') || (w.cfg->flags & ARES_FLAG_NOSEARCH)) cand.push_back(name);
     else {
-      bool first = dots >= (size_t)w.cfg->ndots;
+      // the search configuration in force when the request was issued (it changes with a successful reinit when it
+      // comes from the configuration file)
+      bool first = dots >= (size_t)t.ndots_at_issue;
       if (first) cand.push_back(name);
-      for (auto &d : w.cfg->domains) cand.push_back(d == "." ? name + "." : name + "." + d);
+      for (auto &d : t.domains_at_issue) cand.push_back(d == "." ? name + "." : name + "." + d);
       if (!first) cand.push_back(name);
     }
     // ---- what the server saw for this request: distinct question names in order of first transmission,
@@ -735,7 +737,7 @@ void oracle_c12_search(World &w, const History &)
       std::string a, b;
       for (auto &x : seen) a += x + " ";
       for (auto &x : expect) b += x + " ";
-      w.violate("C12:search:candidate-sequence", fmt("request '%s' (kind %d, ndots %d): server saw [ %s] but resolv.conf semantics prescribe [ %s]", r.name.c_str(), r.kind, w.cfg->ndots, a.c_str(), b.c_str()));
+      w.violate("C12:search:candidate-sequence", fmt("request '%s' (kind %d, ndots %d): server saw [ %s] but resolv.conf semantics prescribe [ %s]", r.name.c_str(), r.kind, t.ndots_at_issue, a.c_str(), b.c_str()));
     } else
       w.W("c12_sequence_checked");
     if (seen.size() > 1) w.W("c12_multi_candidate");
